@@ -24,9 +24,10 @@ PATHS = ['fkey', 'keygen', '_keygen', 'call']
 
 LOOKALIKES = [(['i', 1], ['s', '1']), (['s', 'a'], ['s', "'a'"]), (['n'], ['s', 'None']), (['f', '0.5'], ['s', '0.5']),
               (['t', [['i', 1]]], ['s', '(1,)']), (['b', '61'], ['s', "b'a'"]), (['B', True], ['s', 'True']),
-              (['t', []], ['s', '()']), (['s', ''], ['s', ' ']), (['i', -1], ['i', -2]), (['s', 'a, b'], ['s', 'a,b'])]
+              (['t', []], ['s', '()']), (['s', ''], ['s', ' ']), (['i', -1], ['i', -2]), (['s', 'a, b'], ['s', 'a,b']),
+              (['G', 3], ['t', [['i', 0], ['i', 1], ['i', 2]]]), (['G', 0], ['t', []])]        # a range and the tuple of its items are different values
 TWINS = [(['i', 1], ['f', '1.0']), (['i', 1], ['B', True]), (['i', 0], ['f', '0.0']), (['i', 0], ['B', False]), (['f', '1.0'], ['B', True]),
-         (['i', 2], ['f', '2.0'])]
+         (['i', 2], ['f', '2.0']), (['N', [['f', '1.0'], ['f', '2.0']]], ['t', [['f', '1.0'], ['f', '2.0']]])]      # a namedtuple equals the plain tuple of its fields
 
 
 def info_preserving(km, has_varargs):
